@@ -39,8 +39,9 @@ BOps == <<"add", "sub", "matmul">>
 \* (emul_*: elementwise product with a tensor of the full shape, a 1 x N row, an N x 1 column: broadcasting inside the class-specific _mul_matrix)
 TOps == <<"add_t", "radd_t", "sub_t", "rsub_t", "emul_t", "emul_row", "emul_col">>
 \* scalar kinds: 1 python float 2.0, 2 python float -3.0, 3 python 0.0, 4 0-d tensor, 5 one-element tensor,
-\*               6 batch of constants (b,1,1), 7 batch of constants with a negative and a zero member
-SKinds == 1..7
+\*               6 batch of constants (b,1,1), 7 batch of constants with a negative and a zero member,
+\*               8 batch of constants of mixed sign without zeros (3, -2, 3, ...)
+SKinds == 1..8
 SOps == <<"mul", "rmul", "div">>
 UOps == <<"permute3", "sum_b1", "expand_neg1", "expand_lead", "expand_one", "repeat", "unsqueeze0", "unsqueeze_m3", "squeeze", "permute", "sum_b", "sum_m1",
           "sum_m2", "transpose_b", "add_diag_0d", "add_diag_1", "add_diag_n", "add_diag_b1", "add_diag_bn", "add_jitter">>
@@ -67,8 +68,8 @@ Pick(d) == \* quick tier: one batch configuration per (family, classes, op), rot
 Ok(d) ==
   /\ (d.a \in NoBatch => d.bp[1] = <<>>)
   /\ (d.b \in NoBatch => d.bp[2] = <<>>)
-  /\ (d.fam = "scal" /\ d.bp[2][1] \in {6, 7} => TRUE)
-  /\ (d.fam = "scal" /\ d.op = "div" => d.bp[2][1] \notin {2, 3, 7})
+  /\ (d.fam = "scal" /\ d.bp[2][1] \in {6, 7, 8} => TRUE)
+  /\ (d.fam = "scal" /\ d.op = "div" => d.bp[2][1] \notin {2, 3, 7, 8})
   \* x + (root-form operator) is defined through add_low_rank: x ranges over PSD operators (property statement)
   /\ (d.fam = "bin" /\ d.op = "add" /\ d.b \in RootLike => d.a \in PdSet)
   /\ (d.fam = "un" /\ d.op \in {"squeeze", "expand_one"} => Len(d.bp[1]) > 0 /\ \E i \in 1..Len(d.bp[1]) : d.bp[1][i] = 1)
@@ -89,7 +90,7 @@ InitDesc ==
   \/ \E i \in 1..Len(Cls), o \in 1..Len(TOps), p \in 1..Len(BPairs) :
         desc = Mk("tens", Cls[i], "T", TOps[o], BPairs[p], 300000 + (i * 8 + o) * 8 + p)
   \/ \E i \in 1..Len(Cls), o \in 1..Len(SOps), s \in SKinds, p \in 1..Len(UBatches) :
-        desc = Mk("scal", Cls[i], "S", SOps[o], <<UBatches[p], <<s>>>>, 400000 + ((i * 4 + o) * 8 + s) * 4 + p)
+        desc = Mk("scal", Cls[i], "S", SOps[o], <<UBatches[p], <<s>>>>, 400000 + ((i * 4 + o) * 16 + s) * 8 + p)
   \/ \E i \in 1..Len(Cls), o \in 1..Len(UOps), p \in 1..Len(UBatches) :
         desc = Mk("un", Cls[i], "U", UOps[o], <<UBatches[p], <<>>>>, 500000 + (i * 32 + o) * 4 + p)
   \/ \E i \in 1..Len(PdCls), j \in 1..Len(PdCls), o \in 1..Len(POps), p \in 1..Len(UBatches) :
@@ -130,6 +131,7 @@ ScalarT(kind) ==
     [] kind = 5 -> [shape |-> <<1>>, data |-> <<-2>>]
     [] kind = 6 -> T_Make(b \o <<1, 1>>, LAMBDA idx : 2 + 2 * (T_Ravel(idx, b \o <<1, 1>>) % 2))
     [] kind = 7 -> T_Make(b \o <<1, 1>>, LAMBDA idx : (T_Ravel(idx, b \o <<1, 1>>) % 3) - 1)
+    [] kind = 8 -> T_Make(b \o <<1, 1>>, LAMBDA idx : 3 - 5 * (T_Ravel(idx, b \o <<1, 1>>) % 2))
 
 \* a / c for exact power-of-two c is expressed as (a * num) with den: we only divide by 2, 4, -2 -> scale by den 4
 DivNum(c) == T_Map(c, LAMBDA x : 4 \div x)    \* 4/x is an integer for x in {2, 4, -2, 1, -1, -4}
